@@ -257,6 +257,67 @@ def r13_4(ctx):
     ctx.floor("R13.4", n, 2, "lock regions that re-read and write .mh_sequences")
 
 
+WRITEBACK_EXPECT = {
+    "mbox.Mailbox.fetch": ("reread", "FETCH runs next to deliveries: it must edit the file's current content, not overwrite it with the state of the last resync"),
+    "mbox.Mailbox.store": ("memory", "STORE replaces / removes flags: only the in-memory state (as changed by the helpers) knows what was removed"),
+    "mbox.Mailbox.expunge": ("memory", "removed keys must vanish from every sequence"),
+    "mbox.Mailbox.append": ("memory", "written right after the key was added to the in-memory sequences"),
+}
+
+
+def r13_6(ctx):
+    """What is written to .mh_sequences, for each write site `R.set_sequences_in_folder(A)`:
+       memory  A is R.sequences (or a copy of it): the in-memory state of the *same* mailbox;
+       reread  A is a local obtained from R.get_sequences_from_folder() in this function and edited per key (add / discard /
+               assignment of a sequence) - never by a bulk union with the in-memory sets, which can add but never remove;
+       fresh   A is a map built in this function for another mailbox object (COPY's destination, the target of RENAME INBOX)
+               and R is that other mailbox.
+    Per function the kind is fixed where the semantics demand it (WRITEBACK_EXPECT)."""
+    p = ctx.p
+    n = 0
+    for fi in p.funcs_in("mbox"):
+        for c in calls_in(fi.node):
+            if call_name(c) != "set_sequences_in_folder" or not c.args or call_recv(c) is None:
+                continue
+            n += 1
+            ctx.analysed(fi)
+            recv = norm(call_recv(c))
+            a = c.args[0]
+            kind = None
+            why = ""
+            if norm(a) in (f"{recv}.sequences", f"copy({recv}.sequences)", f"copy.copy({recv}.sequences)", f"deepcopy({recv}.sequences)"):
+                kind = "memory"
+            elif isinstance(a, ast.Name):
+                defs = [s_ for s_ in body_walk(fi.node) if isinstance(s_, (ast.Assign, ast.AnnAssign)) and norm(s_.targets[0] if isinstance(s_, ast.Assign) else s_.target) == a.id and getattr(s_, "value", None) is not None]
+                vals = [strip_await(s_.value) for s_ in defs]
+                if fi.name == "_get_sequences_update_seen" or any(isinstance(v, ast.Call) and call_name(v) in ("get_sequences_from_folder", "_get_sequences_update_seen") for v in vals):
+                    src_recv = [norm(call_recv(v)) for v in vals if isinstance(v, ast.Call) and call_name(v) in ("get_sequences_from_folder", "_get_sequences_update_seen")]
+                    kind = "reread"
+                    if src_recv and any(r_ != recv for r_ in src_recv):
+                        kind, why = None, f"re-read from {src_recv[0]} but written to {recv}"
+                    # bulk union with in-memory sets?
+                    for s_ in body_walk(fi.node):
+                        if isinstance(s_, ast.AugAssign) and isinstance(s_.op, ast.BitOr) and isinstance(s_.target, ast.Subscript) and norm(s_.target.value) == a.id:
+                            kind, why = None, f"`{norm(s_, 50)}` merges by union: a flag that was removed in memory stays in the file"
+                        if isinstance(s_, ast.Call) and call_name(s_) == "update" and isinstance(call_recv(s_), ast.Name) and call_recv(s_).id == a.id:
+                            kind, why = None, f"`{norm(s_, 50)}` overwrites whole sequences of the re-read map"
+                elif any(isinstance(v, ast.Call) and (call_name(v) in ("defaultdict", "dict") or norm(v.func) in ("defaultdict",)) for v in vals) or any(isinstance(v, ast.Dict) for v in vals):
+                    # a map built here: must belong to the receiver - i.e. it is also what becomes <recv>.sequences
+                    owner = [norm(s_.targets[0]) for s_ in body_walk(fi.node) if isinstance(s_, ast.Assign) and norm(s_.value) == a.id and isinstance(s_.targets[0], ast.Attribute) and s_.targets[0].attr == "sequences"]
+                    if owner == [f"{recv}.sequences"]:
+                        kind = "fresh"
+                    else:
+                        why = f"the map `{a.id}` is built for {owner[0].rsplit('.', 1)[0] if owner else 'another object'} but written into the folder of `{recv}`"
+            exp = WRITEBACK_EXPECT.get(fi.key)
+            if kind is None:
+                ctx.bad("R13.6", fi.module, fi.qual, norm(c, 80), f".mh_sequences of `{recv}` is written from `{norm(a, 40)}`, which is neither that mailbox's in-memory sequences nor its file re-read and edited per key" + (f": {why}" if why else ""), c.lineno)
+            elif exp and kind != exp[0]:
+                ctx.bad("R13.6", fi.module, fi.qual, norm(c, 80), f"{fi.name}() writes the {kind} state to .mh_sequences where the {exp[0]} state is required: {exp[1]}", c.lineno)
+            else:
+                ctx.ok("R13.6", where(fi), f"{norm(c, 60)}: {kind}" + (f" (required: {exp[1][:60]})" if exp else ""), nontrivial=bool(exp) or kind != "memory")
+    ctx.floor("R13.6", n, 10, "write sites of .mh_sequences")
+
+
 def r13_5(ctx):
     p = ctx.p
     fi = p.func("mbox.Mailbox.check_new_msgs_and_flags")
@@ -292,6 +353,7 @@ def run(ctx):
     ctx.do(r13_3)
     ctx.do(r13_4)
     ctx.do(r13_5)
+    ctx.do(r13_6)
     from . import c10
     ctx.do(c10.r10_7)
     ctx.note("periodic poll liveness (clean-up before the emptiness test of executing_tasks) is decided by C10 R10.7")
